@@ -36,7 +36,7 @@ func (c *verifRedisConn) Info() (*redis.Info, error) {
 	return &redis.Info{Version: "7.0.0", Loading: loading, MasterLinkStatus: st}, nil
 }
 func (c *verifRedisConn) Do(cmd string, args ...interface{}) (interface{}, error) { return nil, nil }
-func (c *verifRedisConn) Send(cmd string, args ...interface{}) error             { return nil }
+func (c *verifRedisConn) Send(cmd string, args ...interface{}) error              { return nil }
 func (c *verifRedisConn) Flush() error                                            { return nil }
 func (c *verifRedisConn) Receive() (interface{}, error)                           { return nil, nil }
 func (c *verifRedisConn) Close() error                                            { return nil }
